@@ -16,6 +16,7 @@ class Emitter:
         lw.lambda_fns = []
         lw.used_globals = set()
         lw.param_names = {}
+        lw.access_sites = []
         lw.node_by_id = {}
         self.contracts = contracts or {}
         self.done = {}       # cname -> list of lines
@@ -136,7 +137,7 @@ class Emitter:
         if 'baseInit' in ci:
             bt = lw.te.parse(ci['baseInit'].get('desugaredQualType') or ci['baseInit']['qualType'])
             def go():
-                ctx.init_into('&self->__base_%s' % sanitize(bt.name), e)
+                ctx.init_into('&self->__base_%s' % sanitize(bt.name.split('::')[-1]), e)
             pre, _, post = ctx.full(go)
             return pre + post
         if 'delegatingInit' in ci:
@@ -156,7 +157,7 @@ class Emitter:
         for b in reversed(f.cls.bases):
             bt = lw.te.parse(b)
             if lw.nontrivial_dtor(bt):
-                out.append(ctx.dtor_stmt(bt, '&self->__base_%s' % sanitize(bt.name)))
+                out.append(ctx.dtor_stmt(bt, '&self->__base_%s' % sanitize(bt.name.split('::')[-1])))
         return out
 
     # ---------------------------------------------------------------- reachability
@@ -310,7 +311,7 @@ class Emitter:
             lines = ['/* %s */' % r.qual, '%s %s {' % ('union' if r.is_union else 'struct', r.cname)]
             for b in r.bases:
                 bt = lw.te.parse(b)
-                lines.append('  %s;' % lw.ctype(bt, '__base_' + sanitize(bt.name)))
+                lines.append('  %s;' % lw.ctype(bt, '__base_' + sanitize(bt.name.split('::')[-1])))
             if self.needs_vptr(r):
                 lines.append('  int __dyn_type;')
             for (fname, _, fnode) in r.fields:
@@ -322,6 +323,17 @@ class Emitter:
             out.extend(lines)
         for r in recs:
             emit(r)
+        for spec in lw.cfg.get('atomic_required', []):
+            rc, _, fn = spec.partition('.')
+            val = None
+            for r in recs:
+                if r.cname == rc:
+                    for (fname, _, fnode) in r.fields:
+                        if fname == fn:
+                            val = 1 if 'atomic' in qt(fnode) else 0
+            if val is None:
+                raise LowerError('atomic_required: field %s not found' % spec)
+            out.append('#define ATOMIC_%s_%s %d   /* declared type of the field is%s an atomic type */' % (rc, fn, val, '' if val else ' NOT'))
         return out
 
     def needs_vptr(self, r):
